@@ -18,5 +18,5 @@ one() {
   echo "$N: now=${R#,} recorded=$EXP"
 }
 export -f one
-ls -d seeded/*/ | sed 's:/$::' | xargs -P 4 -I{} bash -c 'one {}' >> $LOG 2>&1
+ls -d /verif/seeded/*/ | sed 's:/$::' | xargs -P 4 -I{} bash -c 'one {}' >> $LOG 2>&1
 echo "== done" >> $LOG
